@@ -149,7 +149,8 @@ def is_real(v):
 class Ctx:
     """What contract clauses (requires / ensures / invariants) get to look at."""
 
-    def __init__(self, ex, st, old=None, args=None, result=None, raised=None, it=None, pre=None):
+    def __init__(self, ex, st, old=None, args=None, result=None, raised=None, it=None, pre=None, summary=False):
+        self.summary = summary  # True when the clause is being ASSUMED at a call site
         self.ex, self.st, self.old, self.args = ex, st, old, args or {}
         self.result, self.raised, self.it, self.pre = result, raised, it, pre
 
@@ -755,6 +756,13 @@ class Interp:
                 if hasattr(itv, "pyvc_comp"):
                     yield st1, itv.pyvc_comp(node, st1, self)
                     continue
+                if (
+                    isinstance(itv, (LstObj, SymSeq)) and not g.ifs and isinstance(g.target, ast.Name)
+                    and isinstance(node.elt, ast.Subscript) and isinstance(node.elt.value, ast.Name)
+                    and node.elt.value.id == g.target.id and isinstance(node.elt.slice, ast.Constant)
+                ):
+                    yield st1, CompView(self.as_seq(itv, st1), node.elt.slice.value)
+                    continue
                 raise Unsupported(f"comprehension over symbolic-length iterable at line {node.lineno}")
 
             def rec(k, st2, acc):
@@ -852,6 +860,11 @@ class Interp:
                         yield st3, RAISE
                         continue
                     kwargs = {k.arg: v for k, v in zip(node.keywords, kwv)}
+                    if isinstance(f, BoundMethod) and (isinstance(f.recv, (list, dict)) or hasattr(f.recv, "__pyvc_copy__")):
+                        # the receiver handle was taken before argument evaluation forked the state
+                        ff = list(self.ev(node.func, st3))
+                        if len(ff) == 1 and ff[0][0] is st3:
+                            f = ff[0][1]
                     yield from self.call(f, args, kwargs, st3, node)
 
     # -------------------------------------------------------------- calls
@@ -991,6 +1004,9 @@ class Interp:
                 if name == "list" and isinstance(a[0], (LstObj, FieldList, SymSeq)):
                     yield st, LstObj(self.as_seq(a[0], st))
                     return
+                if name == "tuple" and isinstance(a[0], (LstObj, FieldList, SymSeq)):
+                    yield st, self.as_seq(a[0], st)  # immutable snapshot
+                    return
                 raise Unsupported(f"{name}() of symbolic-length iterable")
             yield st, (list(items) if name == "list" else tuple(items))
             return
@@ -1120,7 +1136,8 @@ class Interp:
             st.assume(na >= st.alloc)
             st.alloc = na
         result = c.fresh_result(self, st)
-        ctx = Ctx(self, st, old=old, args=bound, result=result)
+        st.ghost.setdefault("calls", []).append((c.key, bound, result))
+        ctx = Ctx(self, st, old=old, args=bound, result=result, summary=True)
         for nm, fn in c.ensures:
             t = fn(ctx)
             if isinstance(t, list):
@@ -1246,6 +1263,10 @@ class Interp:
 
     def assign(self, tgt, v, st):
         if isinstance(tgt, ast.Name):
+            lk = getattr(self.cur_contract, "local_kinds", None) if self.depth == 0 else None
+            if lk and tgt.id in lk and isinstance(v, list):
+                # a local list of symbolic length: content arrays + definitional prefix sums
+                v = LstObj(self.as_seq(v, st, kinds=lk[tgt.id]).with_psums(st, tgt.id + ".ps"))
             st.env[tgt.id] = v
             return
         if isinstance(tgt, (ast.Tuple, ast.List)):
@@ -1455,9 +1476,12 @@ class Interp:
             r = Ref(v.cls, fresh(n, INT))
             return r
         if isinstance(v, LstObj):
-            s = SymSeq.fresh(n, v.seq.kinds, v.seq.tuple_elems)
+            cur = v.get(st)
+            s = SymSeq.fresh(n, cur.kinds, cur.tuple_elems)
             st.assume(s.length >= 0)
-            v.seq = s  # same box: aliases observe the havoc
+            if cur.psums is not None:
+                s = s.with_psums(st, n + ".ps")
+            v.set(st, s)  # same box: aliases observe the havoc
             return v
         if isinstance(v, tuple):
             return tuple(self._havoc_val(x, n, st) for x in v)
@@ -1473,7 +1497,12 @@ class Interp:
         pre = st.fork()
         it0 = z3.IntVal(0)
         _, n0 = self._elem_at(itv, it0, st, node)
-        # 1. invariant holds on entry
+        # 1. invariant holds on entry (ghost state may be initialised freely)
+        gkeys = []
+        if spec.ghost_init:
+            g0 = spec.ghost_init(Ctx(self, st, old=self.entry, it=it0, pre=pre))
+            gkeys = list(g0)
+            st.ghost.update(g0)
         for nm, t in spec.inv(Ctx(self, st, old=self.entry, it=it0, pre=pre, args={"n": n0})):
             self.oblige(st, f"{tag}.init:{nm}", t)
         # 2. arbitrary iteration
@@ -1488,6 +1517,8 @@ class Interp:
             hv.assume(na >= st.alloc)
             hv.alloc = na
         it = fresh("it", INT)
+        for gk in gkeys:
+            hv.ghost[gk] = fresh("ghost." + gk, hv.ghost[gk].sort())
         exit_st = hv.fork()
         hv.assume(it >= 0)
         elem, n = self._elem_at(itv, it, hv, node)
@@ -1497,8 +1528,12 @@ class Interp:
         heap_before = dict(hv.heap)
         if feasible(hv.pc):
             self.assign(node.target, elem, hv)
+            it_start = hv.fork()
             for st1, flow in self.exec_block(node.body, hv):
-                self._check_frame(heap_before, st1, spec, tag)
+                if flow.kind in ("next", "continue", "break"):
+                    self._check_frame(heap_before, st1, spec, tag)
+                if spec.ghost_update:
+                    st1.ghost.update(spec.ghost_update(Ctx(self, it_start, old=self.entry, it=it, pre=pre), Ctx(self, st1, old=self.entry, it=it + 1, pre=pre)))
                 if flow.kind in ("next", "continue"):
                     for nm, t in spec.inv(Ctx(self, st1, old=self.entry, it=it + 1, pre=pre, args={"n": n})):
                         self.oblige(st1, f"{tag}.preserve:{nm}", t)
@@ -1591,6 +1626,18 @@ class OptReal:
 
     def compare(self, op, other, st, ex):
         raise Unsupported("ordering on optional real")
+
+
+class CompView:
+    """(x[i] for x in <symbolic list of tuples>): only sum() of it is supported."""
+
+    def __init__(self, seq, idx):
+        self.seq, self.idx = seq, idx
+
+    def pyvc_sum(self, st, ex):
+        if self.seq.psums is None or self.seq.psums[self.idx] is None:
+            raise Unsupported("sum over a symbolic list without prefix sums")
+        return z3.Select(self.seq.psums[self.idx], self.seq.length)
 
 
 class GenVal:
